@@ -200,7 +200,7 @@ def assume_invariants(ex, st, spec, idxname, idxval):
     st.env[idxname] = idxval
     try:
         for nm, expr in spec.get("invariant", {}).items():
-            st.assume(zbool(ex.spec_eval(expr, st)))
+            st.assume(zbool(ex.spec_eval(expr, st)), tag=f"inv:{nm}")
         for nm, expr in spec.get("assume", {}).items():   # explicit, reported assumptions
             ex.ctx.assumed.add(f"assume:{ex.fname}/loop/{nm}")
             st.assume(zbool(ex.spec_eval(expr, st)))
@@ -244,10 +244,13 @@ def cut_loop(ex, s, st, ordn, spec, lo, hi, step, elem_of):
     havoc(ex, h, assigned - {idxname}, stored)
     k = fresh(idxname, z3.IntSort())
     if step == 1:
-        h.assume(z3.And(k >= zlo, k < zhi))
+        h.assume(z3.And(k >= zlo, k < zhi), tag="range")
     else:
-        h.assume(z3.And(k <= zlo, k > zhi))
+        h.assume(z3.And(k <= zlo, k > zhi), tag="range")
     assume_invariants(ex, h, spec, idxname, k)
+    h.extra = dict(h.extra)
+    h.extra["head"] = (dict(h.env), dict(h.heap), idxname, k)
+    h.extra["loopspec"] = spec
     if elem_of is not None:
         h.env[idxname] = k
         bind_target(ex, s, h, ex.read(h, elem_of, (k,), s, check=False))
@@ -280,10 +283,13 @@ def cut_loop(ex, s, st, ordn, spec, lo, hi, step, elem_of):
     havoc(ex, e, assigned - {idxname}, stored, types)
     kx = fresh(idxname + "!exit", z3.IntSort())
     if step == 1:
-        e.assume(kx == z3.If(zlo <= zhi, zhi, zlo))
+        e.assume(kx == z3.If(zlo <= zhi, zhi, zlo), tag="range")
     else:
-        e.assume(kx == z3.If(zlo >= zhi, zhi, zlo))
+        e.assume(kx == z3.If(zlo >= zhi, zhi, zlo), tag="range")
     assume_invariants(ex, e, spec, idxname, kx)
+    e.extra = dict(e.extra)
+    e.extra["head"] = (dict(e.env), dict(e.heap), idxname, kx)
+    e.extra["loopspec"] = spec
     if spec.get("exit_hints"):
         sv, hd = e.env.get(idxname), idxname in e.env
         e.env[idxname] = kx
